@@ -44,6 +44,7 @@ structure MacroDef where
 structure CallerDef where
   body : List Stmt
   depth : Nat
+  site : Nat                  -- index into `St.sites`: the scopes alive where the call block is written
 
 structure Frame where
   vars : List (String × Val) := []
@@ -55,6 +56,7 @@ structure St where
   frames : List Frame               -- innermost first
   ns : List (List (String × Val))   -- namespace cells, by id
   quirk : Bool                      -- a read went past a scope that assigns the name later (see `noteReads`)
+  sites : List (List Frame) := []   -- the suspended scope stacks of the call blocks being executed (innermost last)
 
 inductive Sig where | normal | brk | cont
   deriving DecidableEq, Inhabited
@@ -259,12 +261,6 @@ def callMacroWith (rn : Runner) (ctxVars : List (String × Val)) (fuelA : Nat) (
     | some m =>
       if args.length > m.params.length then .error (.typeError, st.quirk) else
       if caller.isSome && !usesCaller fuelA m.body then .error (.typeError, st.quirk) else
-      -- The call block's body is a closure over the scopes of the CALL SITE.  `callerOut` rebuilds them as "the
-      -- `c.depth` outermost scopes of the stack the macro runs on", which is the call site's stack exactly when the
-      -- block is written at the depth the macro was defined at.  A call block nested deeper than its macro's
-      -- definition (`{% for d in ys %}{% call m() %}{{ d }}{% endcall %}{% endfor %}` with a top-level `m`) is outside
-      -- the model's fragment: answer `oom` (never compared) rather than look the loop variable up in the wrong scope.
-      if callerDepthMismatch caller m.depth then .error (.oom, st.quirk) else
       let closure : St := { st with frames := closureFrames st.frames m.depth }
       let bound := (m.params.zip argVals).map (fun p => (p.1.1, p.2))
       let f0 : Frame := { vars := bound.reverse, caller := caller, assigns := assignedIn fuelA m.body }
@@ -337,14 +333,16 @@ def step (rn : Runner) (ctxVars : List (String × Val)) (fuelA : Nat) (st : St) 
      | .ok (st', out) => .ok (st', out, .normal)
      | .error err => .error err)
   | .callBlock n args body =>
-    (match callMacroWith rn ctxVars fuelA st n args (some { body := body, depth := st.frames.length }) with
-     | .ok (st', out) => .ok (st', out, .normal)
+    -- the block's body closes over the scopes of the call site: they are suspended while the macro runs
+    let st1 : St := { st with sites := st.sites ++ [st.frames] }
+    (match callMacroWith rn ctxVars fuelA st1 n args (some { body := body, depth := st.frames.length, site := st.sites.length }) with
+     | .ok (st', out) => .ok ({ st' with sites := st.sites }, out, .normal)
      | .error err => .error err)
   | .callerOut =>
     (match lookupCaller st.frames with
      | none => .error (.oom, st.quirk)      -- `caller` outside a call block: undefined / a context variable; outside the fragment
      | some c =>
-       let closure : St := { st with frames := closureFrames st.frames c.depth }
+       let closure : St := { st with frames := st.sites.getD c.site [] }
        (match rn (closure.push { assigns := assignedIn fuelA c.body }) c.body with
         | .ok (st', out, _) => .ok ({ st with ns := st'.ns, quirk := st'.quirk }, out, .normal)
         | .error err => .error err))
